@@ -43,4 +43,18 @@ theorem cross_method_accepted :
       = ([.cachePut, .stateDecode, .bindCallState, .rehydrate], .ok ⟨[9, 9], List.replicate 16 7, ⟨"genb".toList, body⟩, false, 100⟩)), rfl⟩,
     by decide⟩
 
+/-- **a fixed-width method field does not bind the method**: with `method.encode()[:32].ljust(32, b"\0")` two names
+    that agree on their first 32 bytes give the same segment (and hence the same call AAD) — while the terminated
+    layout of the repaired tree keeps them apart (`C13_call_aad_binds_method`) -/
+theorem fixed_width_field_not_injective :
+    (List.replicate 32 'a' ++ ['1'] : List Char) ≠ List.replicate 32 'a' ++ ['2'] ∧
+    methodFieldWith 32 0 0 (List.replicate 32 'a' ++ ['1']) = methodFieldWith 32 0 0 (List.replicate 32 'a' ++ ['2']) ∧
+    methodFieldWith 0 0 0 (List.replicate 32 'a' ++ ['1']) ≠ methodFieldWith 0 0 0 (List.replicate 32 'a' ++ ['2']) := by
+  decide
+
+/-- padding is ambiguous as well once names may end in the pad byte's character — identifiers cannot, but the layout
+    itself does not separate `"a"` from `"a\0"` -/
+theorem fixed_width_padding_ambiguous :
+    methodFieldWith 4 0 0 ['a'] = methodFieldWith 4 0 0 ['a', Char.ofNat 0] := by decide
+
 end VgiVerif.C13.Findings
